@@ -275,11 +275,28 @@ def run(facts, R):
         if s["place"]["l"] == 0 and not s["place"]["p"]:
             val_rows.append((i, j, s))
     n_gate = 0
+    if getattr(rp, "changed", False):
+        # the result may travel through a temporary (the body moved into a helper that was folded back in: `_0 = _27` at each exit):
+        # read the value each exit assigns by its reaching definitions
+        from analysis.sym import split_rows as _sr
+        expanded = []
+        for i, j, s in val_rows:
+            alts = _sr(rs, i, j, s["rv"]) or []
+            seen_v = []
+            for ch, v_ in alts:
+                if render(v_) not in seen_v:
+                    seen_v.append(render(v_))
+                    expanded.append((i, j, {"rv": None, "_v": v_, "span": s.get("span")}))
+            if not alts:
+                expanded.append((i, j, s))
+        val_rows = expanded
     for i, j, s in val_rows:
-        v = rs.rvalue(s["rv"])
+        v = s["_v"] if s.get("_v") is not None else rs.rvalue(s["rv"])
         txt = render(v)
         if v[0] == "agg" and v[2] == "Err":
             continue
+        if is_call(v, "from_residual"):
+            continue        # `?`: the residual of a failed step, an error by construction
         n_gate += 1
         fs = facts_at(rp, rs, facts, i)
         ok = ok_fact(fs, lambda e: "pull_loop_async" in render(e))
